@@ -15,7 +15,7 @@ SOURCES = {"hta/analyzers/trace_counters.py": ["_get_queue_length_time_series_fo
            "hta/common/trace.py": ["convert_time_series_to_events"], "hta/trace_analysis.py": ["generate_trace_with_counters"],
            "hta/utils/utils.py": ["get_memory_kernel_type"]}
 N_CASES = {"quick": 300, "thorough": 5000}
-RULE = ("generated well-formed causal file sets (1-2 ranks, 1-3 streams, FIFO kernels, tiny time domains: kernels starting at the very timestamp of their launch "
+RULE = ("generated well-formed file sets, four in five causal, one in five with activities stamped before their launch call (1-2 ranks, 1-3 streams, FIFO kernels, tiny time domains: kernels starting at the very timestamp of their launch "
         "call, several launches in one instant, zero-length copies, memcpy/memset of several types with dyadic bandwidths, missing kernels and orphans); compared: "
         "per stream the sequence of (ts, queue_length), the row set (id, ts, pid, tid, stream), per copy type the bandwidth after the last row of each instant, "
         "and the counter events appended to the *_with_counters file against the series at unshifted timestamps; non-trivial = some stream has two rows in one "
@@ -26,7 +26,8 @@ ASSUMPTIONS = ["bandwidths are multiples of 1/4 so that double sums are exact; t
 
 def gen_cases(seed, tier, n):
     out = []
-    profs = ["queue", "queue", "fifo_tiny", "queue_wide"]
+    # queue_skew: device activities stamped up to 3 units before their launch call (clock skew): the exact count is then negative for a while
+    profs = ["queue", "queue", "fifo_tiny", "queue_wide", "queue_skew"]
     for i in range(n):
         c = tracegen.gen_case(seed, i, tracegen.PROFILES[profs[i % len(profs)]])
         c["params"] = {"files": i % 3 == 0}
